@@ -25,7 +25,10 @@ func init() {
 		c01LoopExits(c, "C01.6")
 		c01Handoff(c)
 		c01AtomicTake(c)
+		c20Snapshot(c, "C01.8b")
 		c01Kind(c)
+		c16Encoded(c) // C01.10: the polling batch is encoded as handed over (C16.1)
+		c16Headers(c) // C01.11: the polling body is labelled with its own kind and length (C16.2): a mislabelled body is undecodable
 	})
 }
 
